@@ -248,10 +248,23 @@ def run_case(case, ctx):
         cy = _run(S.fn(D, "spike_distance_cython"), c(ea), c(eb), t0, t1, m, ri)
         _compare(ctx, "spike_distance", case, avg, cy, desc)
 
+    def interior(r):
+        # discrete profiles: times fully, values / multiplicities of the events only
+        # (the two framing entries "never count" and are not part of any property)
+        if r[0] != "ok":
+            return r
+        return ("ok", tuple(np.asarray(v)[1:-1] if k else np.asarray(v)
+                            for k, v in enumerate(r[1])))
+    full = {}
+
+    def keep_full(r):
+        full["last"] = r
+        return interior(r)
     py, cy = _run2(ctx, "coincidence_profile", case, pb.coincidence_python,
-                   S.fn(P, "coincidence_profile_cython"), (sa, sb, t0, t1, mt, m), desc)
+                   S.fn(P, "coincidence_profile_cython"), (sa, sb, t0, t1, mt, m), desc,
+                   interior)
     if py[0] == "ok":
-        tot = ("ok", (float(np.sum(py[1][1][1:-1])), float(np.sum(py[1][2][1:-1]))))
+        tot = ("ok", (float(np.sum(py[1][1])), float(np.sum(py[1][2]))))
         cy = _run(S.fn(D, "coincidence_value_cython"), c(sa), c(sb), t0, t1, mt, m)
         _compare(ctx, "coincidence_value", case, tot, cy, desc)
 
@@ -273,11 +286,11 @@ def run_case(case, ctx):
         cy = _run(gt, c(sa), c(sb), i, j, tm, m)
         _compare(ctx, "get_tau", case, py, cy, desc + " i=%d j=%d" % (i, j))
 
-    py = _run(db.spike_train_order_profile_python, c(sa), c(sb), t0, t1, mt, m)
-    cy = _run(S.fn(R, "spike_train_order_profile_cython"), c(sa), c(sb), t0, t1, mt, m)
-    _compare(ctx, "order_profile", case, py, cy, desc)
+    py, cy = _run2(ctx, "order_profile", case, db.spike_train_order_profile_python,
+                   S.fn(R, "spike_train_order_profile_cython"), (sa, sb, t0, t1, mt, m), desc,
+                   interior)
     if py[0] == "ok":
-        tot = ("ok", (float(np.sum(py[1][1][1:-1])), float(np.sum(py[1][2][1:-1]))))
+        tot = ("ok", (float(np.sum(py[1][1])), float(np.sum(py[1][2]))))
         cy = _run(S.fn(R, "spike_train_order_cython"), c(sa), c(sb), t0, t1, mt, m)
         _compare(ctx, "order_value", case, tot, cy, desc)
 
